@@ -99,6 +99,9 @@ def main():
                  'tools/translate/iconv2lean.py + tools/translate/pytr (the translated subset of lib/iconv.py) and the kit Model/CharsetPy.lean: what each '
                  'ctypes operation is taken to be (c_size_t cells below 2^64, sizeof(wchar_t) = 4, pointers as the buffer they were made from, the reset '
                  'call selecting the round by the out-count of its iteration, errno as ghost state, a charset name is ASCII, no lone surrogates)',
+                 'tools/translate/encodings2lean.py + tools/translate/pytr (the translated subset of lib/encodings.py) and the kit Model/EncodingsPy.lean '
+                 '(str.lower/upper on ASCII letters, the module tables / codec registry / bytes.decode outcomes / charmap files as parameters, the CPython '
+                 'exception hierarchy, charmap_build = encLookup)',
                  'the correspondence harness (tools/checks/charset_common.py, Driver/Charset.lean)'],
         explanation=EXPLANATION)
 
@@ -127,6 +130,13 @@ EXPLANATION = (
     'generated_errors_not_strict; restated about the regenerated binding: iconv_told_le_allocated_generated (+_any), iconv_loop_schedule_generated, '
     'iconv_loop_terminates_generated, iconv_encode_loop_terminates_generated, iconv_loop_returns_produced_generated, '
     'iconv_encode_loop_returns_produced_generated, iconv_loop_error_span_generated (coverage.tie; twin streams charset-loop-*-generated). '
+    'Likewise lib/encodings.py (tools/translate/encodings2lean.py -> Generated/EncodingsFn.lean over the kit Model/EncodingsPy.lean): the constants '
+    '_interesting_ascii_bytes / _interesting_ascii_str evaluated from their defining expressions, is_portable_encoding, propose_portable_encoding, '
+    'is_ascii_compatible_encoding, decode, charmap_encoding, iconv_encoding, _codec_search_function, for all names / tables / registries / decode outcomes / '
+    'file sets: generated_interesting_ascii_eq_model, generated_is_portable_encoding_eq_model, generated_propose_portable_encoding_eq_model, '
+    'generated_is_ascii_compatible_encoding_eq_model, generated_encodings_decode_eq_model, generated_charmap_encoding_eq_model, '
+    'generated_codec_search_function_eq_model; restated: ascii_verdict_bytewise_generated, ascii_unknown_generated, proposal_portable_generated, '
+    'proposal_sound_generated, loader_decode_total_generated, codec_search_extra_generated (twin streams charset-names-generated, charset-loader-generated). '
     'End to end (the loop composed with a reference iconv for the charset): euctw_codec_decode, euctw_codec_encode, euctw_codec_roundtrip, '
     'koi8t_codec. loader_decode_total. unrepresentable_iff, check_unrepresentable_iff, check_classification, check_total, '
     'extra_codecs_encode_ok (EncodeOk is a theorem for the charmap codecs and EUC-TW). '
